@@ -76,6 +76,10 @@ def event_projects():
     P.append(("same-event-two-files", [("lib.rs", a + "pub fn f1(app: AppHandle, x: Foo) {\n    app.emit(\"changed\", x).unwrap();\n}\n"),
                                         ("sub/other.rs", HDR + "pub fn f2(app: AppHandle) {\n    app.emit(\"changed\", 1).unwrap();\n}\n")]))
     P.append(("colliding-event-identifiers", [("lib.rs", a + "pub fn f1(app: AppHandle) {\n    app.emit(\"user-login\", 1).unwrap();\n    app.emit(\"user_login\", 2).unwrap();\n    app.emit(\"user:login\", 3).unwrap();\n    app.emit(\"user/login\", 4).unwrap();\n}\n")]))
+    only = rg.struct_src("OnlyFirstSite", [("seq", "u32")]) + rg.struct_src("OnlySecondSite", [("note", "String")])
+    P.append(("one-event-two-sites-distinct-payload-types", [("lib.rs", a + only + "pub fn f1(app: AppHandle, x: OnlyFirstSite) {\n    app.emit(\"changed\", x).unwrap();\n}\n\n"
+                                                                           "pub fn f2(app: AppHandle, y: OnlySecondSite) {\n    app.emit(\"changed\", y).unwrap();\n}\n\n"
+                                                                           "pub fn f3(app: AppHandle) {\n    app.emit(\"changed\", 3).unwrap();\n}\n")]))
     P.append(("no-events", [("lib.rs", a)]))
     P.append(("event-in-command-body", [("lib.rs", a + rg.command_src("go", [("app", "AppHandle"), ("k", "Kind")], "Foo", body="app.emit(\"started\", k).unwrap(); todo!()"))]))
     return P
